@@ -119,6 +119,9 @@ def check_case(ck, paths_small, paths_big, case, idx):
     paths = paths_big if big else paths_small
     word = rng.choice(kal.ADMISSIBLE[kind])
     gpo, gpe, tgpe = penalties(rng)
+    if big:
+        # free gap extension on thousands of sequences makes the alignment (and the run time) explode: defaults only for the large classes
+        gpo, gpe, tgpe = None, None, None
     nt = rng.choice([1, 2, 3, 8, 16]) if case["cls"] != "huge" else rng.choice([3, 7, 8, 16])
     ctxbase = {"case_class": case["cls"], "kind": kind, "type": word, "gpo": gpo, "gpe": gpe, "tgpe": tgpe}
     f = ck.tmp(".fa")
